@@ -27,7 +27,16 @@ def tasks(tier):
   grid = [(2, 4, 3), (2, 3, 2), (1, 4, 2)]
   if tier == 'thorough':
     grid += [(2, 5, 2), (2, 6, 3), (2, 4, 1), (2, 2, 1), (2, 4, 4), (3, 3, 2), (3, 4, 3)]
-  return [dict(n=n, dim=d, rank=r, **({'stretch': True} if n >= 3 else {})) for n, d, r in grid]
+  out = [dict(n=n, dim=d, rank=r, **({'stretch': True} if n >= 3 else {})) for n, d, r in grid]
+  # several axes per layer / several groups of different dimension (exercises grouping and the write-back by layer and axis)
+  out.append(dict(layers=[[3, 2]], rank=2))
+  if tier == 'thorough':
+    out += [dict(layers=[[4, 3], [4, 2]], rank=2), dict(layers=[[3, 4], [4, 3]], rank=2, stretch=True)]
+  return out
+
+
+def layers_of(t):
+  return t['layers'] if 'layers' in t else [[t['dim']]] * t['n']
 
 
 def load_module():
@@ -49,21 +58,27 @@ def load_module():
   return mod
 
 
-def make_states(n, dim):
-  sk = {f'L{i}': {'axes': {'0': {'dim': dim}}} for i in range(n)}
+def make_states(layers):
+  sk = {f'L{i}': {'axes': {str(a): {'dim': d} for a, d in enumerate(dims)}} for i, dims in enumerate(layers)}
   return ({'inner_state': {'0': {'direction': {'1': {'sketches': sk}}}}},)
 
 
-def enumerate_paths(n, dim, rank, maxpaths=400):
+def axes_of(layers):
+  return [(i, a, d) for i, dims in enumerate(layers) for a, d in enumerate(dims)]
+
+
+def enumerate_paths(layers, rank, maxpaths=400):
   mod = load_module()
-  names = [f'L{i}/axes/0' for i in range(n)]
-  sc = [z3.FP(f's{i}', F) for i in range(n)]
+  axes = axes_of(layers)
+  n = len(axes)
+  names = [f'L{i}/axes/{a}' for i, a, _ in axes]
+  sc = [z3.FP(f's{k}', F) for k in range(n)]
   mod.score_fn = lambda states, rule, layer_names, running_average=False: {nm: SymF(s) for nm, s in zip(names, sc)}
-  states = make_states(n, dim)
+  states = make_states(layers)
 
   def run():
     out = mod.create_redist_dict('', [0], 'sketch_trace', False, rank, states)
-    return [out[f'L{i}'][0] for i in range(n)]
+    return [out[f'L{i}'][a] for i, a, _ in axes]
 
   base = [z3.And(z3.Not(z3.fpIsNaN(s)), z3.Not(z3.fpIsInf(s)),
                  z3.Or(z3.fpIsZero(s), z3.And(z3.fpGEQ(s, z3.FPVal(2.0 ** -40, F)), z3.fpLEQ(s, z3.FPVal(2.0 ** 40, F))))) for s in sc]
@@ -100,31 +115,40 @@ def enumerate_paths(n, dim, rank, maxpaths=400):
     if kind == 'exc':
       paths.append(dict(pc=pc, neg_post=z3.BoolVal(True), what=f'{type(res).__name__}: {str(res)[:80]}'))
       continue
-    tot = z3.BitVecVal(0, 32)
+    tot, size = {}, {}
     bad = []
-    for x in res:
+    for x, (_, _, dim) in zip(res, axes):
       t = bv(x)
-      tot = tot + t
+      tot[dim] = tot.get(dim, z3.BitVecVal(0, 32)) + t
+      size[dim] = size.get(dim, 0) + 1
       bad += [t < 1, t > dim]
-    paths.append(dict(pc=pc, neg_post=z3.Or(bad + [tot > n * rank]), what='ranks', alive=len(FE.E.alive)))
+    paths.append(dict(pc=pc, neg_post=z3.Or(bad + [tot[d] > size[d] * rank for d in tot]), what='ranks', alive=len(FE.E.alive)))
   return sc, base, paths, (FE.E.oracle_calls, round(stats['t'], 1), stats['unknown'])
 
 
-def real_run(scores, dim, rank):
+def real_run(scores, layers, rank):
   """the real function on concrete float32 scores (rule sketch_trace: score = sum of eigvals)"""
   from precondition.tearfree import reallocation as R
-  n = len(scores)
-  sk = {f'L{i}': {'axes': {'0': {'dim': dim, 'eigvals': jnp.asarray([scores[i]], jnp.float32)}}} for i in range(n)}
+  axes = axes_of(layers)
+  it = iter(scores)
+  sk = {f'L{i}': {'axes': {str(a): {'dim': d, 'eigvals': jnp.asarray([next(it)], jnp.float32)} for a, d in enumerate(dims)}}
+        for i, dims in enumerate(layers)}
   states = ({'inner_state': {'0': {'direction': {'1': {'sketches': sk}}}}},)
   try:
     out = R.create_redist_dict('', [0], 'sketch_trace', False, rank, states)
   except Exception as ex:
-    return f'create_redist_dict raises {type(ex).__name__}: {str(ex)[:100]} for scores {scores}, dim {dim}, base rank {rank}'
-  ranks = [int(out[f'L{i}'][0]) for i in range(n)]
-  if any(r < 1 or r > dim for r in ranks):
-    return f'ranks {ranks} outside [1, {dim}] for scores {scores}, base rank {rank}'
-  if sum(ranks) > n * rank:
-    return f'ranks {ranks} sum to {sum(ranks)} > budget {n} x {rank} = {n * rank} for scores {scores}, dim {dim}'
+    return f'create_redist_dict raises {type(ex).__name__}: {str(ex)[:100]} for scores {scores}, axis dims {layers}, base rank {rank}'
+  try:
+    ranks = [int(out[f'L{i}'][a]) for i, a, _ in axes]
+  except Exception as ex:
+    return f'result has no integer rank for some axis ({type(ex).__name__}: {str(ex)[:60]}) for scores {scores}, axis dims {layers}'
+  dims = [d for _, _, d in axes]
+  if any(r < 1 or r > d for r, d in zip(ranks, dims)):
+    return f'ranks {ranks} outside [1, dim] for axis dims {dims}, scores {scores}, base rank {rank}'
+  for d in sorted(set(dims)):
+    grp = [r for r, dd in zip(ranks, dims) if dd == d]
+    if sum(grp) > len(grp) * rank:
+      return f'ranks {grp} of the dim-{d} group sum to {sum(grp)} > budget {len(grp)} x {rank} = {len(grp) * rank} for scores {scores}, axis dims {layers}'
   return None
 
 
@@ -146,10 +170,10 @@ def solve_path(args):
 
 def work(t):
   t0_ = time.time()
-  n, dim, rank = t['n'], t['dim'], t['rank']
-  tag = f'n={n}|dim={dim}|rank={rank}'
+  layers, rank = layers_of(t), t['rank']
+  tag = (f"n={t['n']}|dim={t['dim']}|rank={rank}" if 'n' in t else f"axis dims per layer={layers}|rank={rank}")
   known_open = {e['key']: e for e in load_known(PID) if e.get('status') == 'open'}
-  sc, base, paths, ocalls = enumerate_paths(n, dim, rank)
+  sc, base, paths, ocalls = enumerate_paths(layers, rank)
   names = [str(s) for s in sc]
   timeout = t.get('timeout', 600)
   res, viol = [], []
@@ -171,7 +195,7 @@ def work(t):
       n_unsat += 1
     elif r['status'] == 'sat':
       scores = [float(np.float32(r['model'].get(nm, 0.0))) for nm in names]
-      what = real_run(scores, dim, rank)
+      what = real_run(scores, layers, rank)
       if what:
         key = 'C17:over-allocation' if 'sum to' in what else ('C17:exception:' + what.split('raises ')[1].split(':')[0] if 'raises' in what else 'C17:rank-range')
         found.setdefault(key, (what, scores))
@@ -183,7 +207,7 @@ def work(t):
   n_abs = sum(1 for o in outs if o.get('stage') == 'abstract')
   note = f'{len(paths)} paths explored, {n_unsat} discharged ({n_abs} already with float arithmetic abstracted), {n_unknown} undecided'
   for key, (what, scores) in found.items():
-    path = write_replay(PID, dict(property=PID, scores=scores, dim=dim, rank=rank, observed=what))
+    path = write_replay(PID, dict(property=PID, scores=scores, layers=layers, rank=rank, observed=what))
     viol.append(dict(key=key, what=what, replay=path))
     status = 'violation'
   if not found and n_unknown:
@@ -203,7 +227,7 @@ def work(t):
 
 def replay(path):
   d = json.load(open(path))
-  what = real_run(d['scores'], d['dim'], d['rank'])
+  what = real_run(d['scores'], d['layers'] if 'layers' in d else [[d['dim']]] * len(d['scores']), d['rank'])
   if what:
     print(f'VIOLATION property={PID} replay={path}')
     print('  ' + what)
@@ -222,10 +246,10 @@ def run(rep):
   ts = tasks(rep.tier)
   for t in ts:
     t['timeout'] = 600 if rep.tier == 'quick' else 1800
-  rep.bounds = dict(grid=[(t['n'], t['dim'], t['rank']) for t in ts], scores='every float32 that is 0 or in [2^-40, 2^40], per axis',
-                    groups='one group of n equal-dimension axes', paths='all paths up to 400 per grid point')
+  rep.bounds = dict(grid=[(t['n'], t['dim'], t['rank']) if 'n' in t else dict(axis_dims_per_layer=t['layers'], rank=t['rank']) for t in ts], scores='every float32 that is 0 or in [2^-40, 2^40], per axis',
+                    groups='one group of n equal-dimension axes; plus layers with two axes forming 2-3 groups of different dimension', paths='all paths up to 400 per grid point')
   rep.stubs = ['score_fn -> symbolic float32 scores (scoring rules are outside the budget claim)', 'checkpoint loading bypassed (states passed in memory)']
   rep.assumptions = ['python ints modelled as 32-bit vectors (values are far below 2^31 within the bounds)',
                      'jnp float32 scalar arithmetic = IEEE binary32 RNE']
-  rep.outside = ['more than 3 axes per group, several groups', 'scoring rules, running_average, checkpoint I/O']
+  rep.outside = ['more than 3 axes per group, more than 3 groups', 'scoring rules, running_average, checkpoint I/O']
   run_tasks('vp.props.c17', 'work', ts, report=rep, timeout=(2400 if rep.tier == 'quick' else 7000), workers=4)
